@@ -342,3 +342,19 @@ Proof.
     destruct (stroke_kind st); apply circle_offset_zero, circle_sok_ok, Hc. }
   unfold styled_map. rewrite E, Hp. reflexivity.
 Qed.
+
+(* ---- the split of the stroke width for EVERY u32 width (the saturating branch included) ---- *)
+Theorem stroke_split_sat st :
+  0 <= stroke_width st <= u32_max ->
+  (inside_stroke_width st + outside_stroke_width st = stroke_width st \/
+   (stroke_alignment st = Center /\ stroke_width st = u32_max /\
+    inside_stroke_width st = 2147483647 /\ outside_stroke_width st = 2147483647)) /\
+  0 <= stroke_area_offset st <= i32_max /\ - i32_max <= fill_area_offset st <= 0 /\
+  stroke_area_offset st = Z.min (outside_stroke_width st) i32_max /\
+  (stroke_kind st = Solid -> fill_area_offset st = - Z.min (inside_stroke_width st) i32_max).
+Proof.
+  unfold stroke_area_offset, fill_area_offset, inside_stroke_width, outside_stroke_width, sat_add_u32, sat_u32_to_i32, u32_max, i32_max.
+  intros H. destruct (stroke_alignment st) eqn:Ea, (stroke_kind st) eqn:Ek;
+    (split; [|split; [|split; [|split; [reflexivity|intros; try reflexivity; try discriminate]]]]); try lia.
+  all: destruct (Z.eq_dec (stroke_width st) 4294967295) as [E|E]; [right; rewrite E; repeat split; reflexivity|left; lia].
+Qed.
